@@ -211,6 +211,17 @@ def d4(ctx, F, label=""):
         ctx.check(ok, "C17.D4.handover-in-own-task", "topic-queue-wait-outside-handler:%s%s" % (parent.split("selium_server::")[-1], label),
                   "%s waits for room in a topic's queue; only a stream's own handler (handle_stream, or an async helper it alone awaits) may do that, "
                   "so that a full queue holds up nobody but that registration" % parent, ws[0].span)
+    # (c) a registration waits only for its own stream, the two registries' locks and its own topic's queue: every other wait (a signal
+    # from another stream's handler, a semaphore, a timer that tears things down, a task handle) couples it to something that may
+    # itself be parked behind a stalled topic
+    hsi = K.handle_stream_body(ctx, F)
+    OWN = ("futures_util::stream::stream::StreamExt::next", "futures_util::sink::SinkExt::send", "futures_util::sink::SinkExt::flush", "futures_util::sink::SinkExt::close",
+           "tokio::sync::mutex::Mutex::lock", "selium_server::topic::Sender::", "selium_server::cloud::", "selium_protocol::bistream::BiStream::")
+    for a in flow.awaits(hsi):
+        nm = a.source_name()
+        own = nm.startswith(OWN) or (a.source is not None and (a.source.t.get("resolved") or "").startswith(("selium_server::", "<selium_server::")))
+        ctx.check(own, "C17.D4.waits-only-for-its-own", "handle_stream-foreign-wait:%s%s" % (nm.rsplit("::", 2)[-2] + "::" + nm.rsplit("::", 1)[-1] if "::" in nm else nm, label),
+                  "handle_stream awaits only its own stream, the registries' locks and its topic's queue (found `%s.await`)" % nm, a.span)
     wrappers = [c.body for c in F.callers_of("selium_server::server::handle_stream")]
     for b in [hs] + [w for w in wrappers if w is not hs]:
         if not any(bl["term"]["k"] == "yield" for bl in b.blocks):
